@@ -41,7 +41,7 @@ class World:
         tasks.HOOKS.clear()
         self.backend = backend
         self.log: list[tuple] = []
-        self.ops: list[tuple] = []  # (tid, trace position at completion, logical operation name)
+        self.ops: list[tuple] = []  # (tid, trace position at completion, logical operation name, position at start)
         if backend == env.MEM:
             app = env.make_app(env.MEM, app_id=app_id, **conf)
             self.apps = [app] * nproc
@@ -79,10 +79,10 @@ class World:
                 rec = orig(invocation_id, status, runner_id)
             except BaseException as e:  # noqa: BLE001
                 if not isinstance(e, sched.Abort):
-                    log.append(("tr", _tid(), str(invocation_id), status.name, runner_id, type(e).__name__, None))
+                    log.append(("tr", _tid(), str(invocation_id), status.name, runner_id, type(e).__name__, None, _pos()))
                 raise
             log.append(("tr", _tid(), str(invocation_id), status.name, runner_id, "ok",
-                        (rec.status.name, rec.runner_id, rec.timestamp.timestamp())))
+                        (rec.status.name, rec.runner_id, rec.timestamp.timestamp()), _pos()))
             return rec
 
         orch._atomic_status_transition = wrapped
@@ -92,7 +92,7 @@ class World:
             rec = orig_reg(invocations, runner_id)
             for inv in invocations:
                 log.append(("tr", _tid(), str(inv.invocation_id), "REGISTERED", runner_id, "ok",
-                            (rec.status.name, rec.runner_id, rec.timestamp.timestamp())))
+                            (rec.status.name, rec.runner_id, rec.timestamp.timestamp()), _pos()))
             return rec
 
         orch._register_new_invocations = wrapped_reg
@@ -104,12 +104,13 @@ class World:
 
             def w(*a: Any, **k: Any) -> Any:
                 nm = name_of(*a, **k)
+                start = _pos()
                 try:
                     r = orig_fn(*a, **k)
                     if materialise:
                         r = iter(list(r))
                 finally:
-                    ops.append((_tid(), _pos(), nm))
+                    ops.append((_tid(), _pos(), nm, start))
                 return r
 
             setattr(obj, attr, w)
